@@ -26,14 +26,14 @@ theorem add_nalloc (a : Arr) (x : Nat) (m : Mem) (hinv : a.Inv) :
     rw [add_room a x m hroom, store_eq a x m (by omega)]
     exact ⟨rfl, rfl⟩
   · rw [add_full a x m (by omega)]
-    by_cases hmax : a.capacity = Gen.CC_MAX_ELEMENTS
+    by_cases hmax : a.AtLimit
     · left; rw [expandCapacity_max a m hmax]; exact ⟨rfl, rfl⟩
     · cases hal : m.alloc.1
       · left
         rw [expandCapacity_refused a m hmax hal]
         exact ⟨rfl, (alloc_nalloc m).2 hal⟩
       · right
-        have hgt := newCapacity_gt a (by omega)
+        have hgt := newCapacity_gt a (by have := max8_lt; omega)
         rw [expandCapacity_success a m hmax hal]
         simp only [bne_self_eq_false, Bool.false_eq_true, if_false]
         rw [store_eq _ x _ (by simp; omega)]
@@ -50,7 +50,7 @@ def addAll (a : Arr) (xs : List Nat) (m : Mem) : Arr × Mem :=
 /-- doubling invariant: after `k` re-allocations the capacity is at least `c0 * 2^k`, and the last
 re-allocation happened at a size of at least `c0 * 2^(k-1)` -/
 theorem addAll_doubling (c0 n0 : Nat) : ∀ (xs : List Nat) (a : Arr) (m : Mem), a.Inv → 0 < m.live →
-    (∀ c, 2 * c ≤ a.grow c) → (∀ c, a.grow c ≤ Gen.CC_MAX_ELEMENTS) →
+    (∀ c, 2 * c ≤ a.grow c) →
     n0 ≤ m.nalloc → c0 * 2 ^ (m.nalloc - n0) ≤ a.capacity →
     (1 ≤ m.nalloc - n0 → c0 * 2 ^ (m.nalloc - n0 - 1) < a.size) →
     (a.addAll xs m).1.Inv ∧ n0 ≤ (a.addAll xs m).2.nalloc ∧
@@ -59,14 +59,14 @@ theorem addAll_doubling (c0 n0 : Nat) : ∀ (xs : List Nat) (a : Arr) (m : Mem),
     (a.addAll xs m).1.size ≤ a.size + xs.length := by
   intro xs
   induction xs with
-  | nil => intro a m hinv _ _ _ h1 h2 h3; exact ⟨hinv, h1, h2, h3, by simp [addAll]⟩
+  | nil => intro a m hinv _ _ h1 h2 h3; exact ⟨hinv, h1, h2, h3, by simp [addAll]⟩
   | cons x xs ih =>
-    intro a m hinv hlive hd hg h1 h2 h3
+    intro a m hinv hlive hd h1 h2 h3
     simp only [addAll]
     obtain ⟨sp, sl, sf⟩ := add_spec a x m hinv hlive
     have hinv' : (a.add x m).2.1.Inv := by
       rcases sp with ⟨_, _, hgf⟩ | ⟨_, hsame⟩
-      · exact hgf.inv hinv (hg _)
+      · exact hgf.inv hinv
       · rw [hsame]; exact hinv
     have hgrow : (a.add x m).2.1.grow = a.grow := by
       rcases sp with ⟨_, _, hgf⟩ | ⟨_, hsame⟩
@@ -97,7 +97,7 @@ theorem addAll_doubling (c0 n0 : Nat) : ∀ (xs : List Nat) (a : Arr) (m : Mem),
         refine ⟨by omega, ?_, fun _ => ?_⟩
         · rw [e, Nat.pow_succ, ← Nat.mul_assoc]; omega
         · rw [e, Nat.add_sub_cancel]; omega
-    have := ih (a.add x m).2.1 (a.add x m).2.2 hinv' (by omega) (by rw [hgrow]; exact hd) (by rw [hgrow]; exact hg)
+    have := ih (a.add x m).2.1 (a.add x m).2.2 hinv' (by omega) (by rw [hgrow]; exact hd)
       key.1 key.2.1 key.2.2
     obtain ⟨t1, t2, t3, t4, t5⟩ := this
     refine ⟨t1, t2, t3, t4, ?_⟩
@@ -107,10 +107,10 @@ theorem addAll_doubling (c0 n0 : Nat) : ∀ (xs : List Nat) (a : Arr) (m : Mem),
 any `n` elements to an array of capacity `c0 ≥ 1` performs at most `log2 (final size) + 1`
 successful allocations (0 when nothing was re-allocated) -/
 theorem addAll_realloc_log (a : Arr) (xs : List Nat) (m : Mem) (hinv : a.Inv) (hlive : 0 < m.live)
-    (hd : ∀ c, 2 * c ≤ a.grow c) (hg : ∀ c, a.grow c ≤ Gen.CC_MAX_ELEMENTS) :
+    (hd : ∀ c, 2 * c ≤ a.grow c) :
     (a.addAll xs m).2.nalloc - m.nalloc ≤ Nat.log2 (a.size + xs.length) + 1 ∧
     (a.addAll xs m).1.size ≤ (a.addAll xs m).1.capacity := by
-  have h := addAll_doubling a.capacity m.nalloc xs a m hinv hlive hd hg (Nat.le_refl _) (by simp)
+  have h := addAll_doubling a.capacity m.nalloc xs a m hinv hlive hd (Nat.le_refl _) (by simp)
     (fun h => by omega)
   obtain ⟨t1, t2, t3, t4, t5⟩ := h
   refine ⟨?_, t1.1⟩
